@@ -128,6 +128,15 @@ def regenerate_guards(pid):
         hold = ht.read_text() if ht.exists() else ""
         if htext != hold: ht.write_text(htext)
         info["holdouts"] = {"module": "LK.Gen.HoldoutC05", "obligations": "LK/Proofs/HoldoutC05.lean", "function": "splitting/holdout.py: SampleN, SampleFrac, LastN, LastFrac", "changed_since_last_run": htext != hold}
+    if pid == "C10":
+        # the linear systems the ALS row solvers build (translate/py2lean_als.py)
+        import py2lean_als
+        at = LEAN_DIR / "LK" / "Generated" / "AlsC10.lean"
+        try: atext = py2lean_als.generate(os.path.dirname(lenskit.__file__))
+        except py2lean_als.Unsupported as e: return "untranslatable", f"ALS row solvers: {e}", info
+        aold = at.read_text() if at.exists() else ""
+        if atext != aold: at.write_text(atext)
+        info["als_systems"] = {"module": "LK.Gen.AlsC10", "obligations": "LK/Proofs/AlsC10.lean", "function": "als/_explicit.py:_train_solve_row, _train_bias_row_cholesky; als/_implicit.py:_train_new_row, _train_implicit_cholesky_rows, _implicit_otor", "changed_since_last_run": atext != aold}
     if pid == "C06":
         # array_dcg / fixed_dcg, statement by statement (translate/py2lean_np.py)
         import py2lean_np
@@ -216,7 +225,7 @@ def main():
         if status in ("untranslatable", "obligation-broken"):
             sys.exit(search_chunking(a.pid, f"{status}: {msg}"))
         if status == "build-error":
-            if ginfo is not None and any(f"{k}{a.pid}" in msg for k in ("Guards", "Wiring", "Scatter", "Np", "Imp", "Holdout", "Arrow", "Cand", "SaveTrace", "BatchTrace", "Neg")):
+            if ginfo is not None and any(f"{k}{a.pid}" in msg for k in ("Guards", "Wiring", "Scatter", "Np", "Imp", "Holdout", "Arrow", "Cand", "SaveTrace", "BatchTrace", "Neg", "Als")):
                 sys.exit(obligation_broken(a.pid, "obligation-broken: " + msg.replace("\n", " | ")[:900], mod, a.tier, seed, a.replay, ginfo))
             print(f"machinery error: lake build failed\n{msg}", file=sys.stderr); sys.exit(2)
     else:
@@ -224,7 +233,7 @@ def main():
         r = subprocess.run(["lake", "build", f"LK.Props.{a.pid}", "lkdriver"], cwd=LEAN_DIR, capture_output=True, text=True, timeout=1800)
         if r.returncode != 0:
             bad = [l for l in (r.stdout + r.stderr).splitlines() if "error" in l][:8]
-            if ginfo is not None and any(any(f"{k}{a.pid}" in l for k in ("Guards", "Wiring", "Scatter", "Np", "Imp", "Holdout", "Arrow", "Cand", "SaveTrace", "BatchTrace", "Neg")) for l in bad):
+            if ginfo is not None and any(any(f"{k}{a.pid}" in l for k in ("Guards", "Wiring", "Scatter", "Np", "Imp", "Holdout", "Arrow", "Cand", "SaveTrace", "BatchTrace", "Neg", "Als")) for l in bad):
                 sys.exit(obligation_broken(a.pid, "obligation-broken: " + " | ".join(bad)[:900], mod, a.tier, seed, a.replay, ginfo))
             print("machinery error: lake build failed\n" + "\n".join(bad[:6]), file=sys.stderr); sys.exit(2)
     try:
